@@ -97,12 +97,18 @@ MERGE = dict(BASE, inst_rounds=3, params=dict(self='obj:Domain', other='obj:Doma
                       'new-sizes-from-other': 'forall(lambda j: implies(j >= len(self.attrs), result.shape[j] == other.config[result.attrs[j]]), 0, len(result.attrs))',
                       'size-is-product': 'prod(result.shape, len(result.shape)) == prod(self.shape, len(self.shape)) * '
                                          'prod(other.marginalize(self.attrs).shape, len(other.marginalize(self.attrs).shape))'})
-# NOT PROVED (the ground-instantiation search did not converge within the budget; withdrawn from the claim, see DESIGN.md):
-# distinctness and the config law of merge's result.  Callers that need them (the Factor contracts) ASSUME them; the
-# bounded tier of C15 checks them on every merge it performs.
-MERGE_RESULT_INVARIANT_ASSUMED = {
-    'assumed:attributes-distinct': 'is_distinct(result.attrs)',
-    'assumed:config-matches-shape': 'forall(lambda i: result.config[result.attrs[i]] == result.shape[i], 0, len(result.attrs))'}
+# Distinctness and the config law of merge's result (the representation invariant of the merged domain).  Distinctness rests on
+# the concat-distinct lemma of the sequence theory (machine-checked in pv/vc/lemmas.py); it then serves as a lemma for the config
+# law, whose proof is hinted with the two index terms its paper proof uses (the Skolem position and its last_index).
+MERGE_RESULT_INVARIANT = {
+    'result-invariant:attributes-distinct': 'is_distinct(result.attrs)',
+    'result-invariant:config-matches-shape': 'forall(lambda i: result.config[result.attrs[i]] == result.shape[i], 0, len(result.attrs))'}
+MERGE = dict(MERGE, ensures=dict(MERGE['ensures'], **MERGE_RESULT_INVARIANT),
+             ensures_as_lemmas=['result-invariant:attributes-distinct'],
+             hints={'result-invariant:config-matches-shape':
+                    dict(terms=['_sk', 'last_index(self.attrs + extra.attrs, (self.attrs + extra.attrs)[_sk])'], inst_rounds=0)})
+# name kept for the callers' contracts (pv/contracts/factor.py): these clauses are now proved on merge's body
+MERGE_RESULT_INVARIANT_ASSUMED = {k.replace('result-invariant:', 'inv:'): v for k, v in MERGE_RESULT_INVARIANT.items()}
 
 # ------------------------------------------------------------------ contains / size / eq / small accessors
 CONTAINS = dict(BASE, params=dict(self='obj:Domain', other='obj:Domain'), requires=[],
